@@ -1282,6 +1282,14 @@ fn replay(cx: &mut Ctx, r: &mut Report, path: &std::path::Path) {
             };
             burst_case(cx, r, k);
         }
+        "rebuild_race" => {
+            let i = w["case"].as_u64().unwrap_or(0);
+            r.note("replay_note", json!("the racing append is timed by a hook flag, not by a rendezvous: re-running the same generated case five times"));
+            for _ in 0..5 {
+                let mut g = Rng::derive(doc["seed"].as_u64().unwrap_or(cx.cfg.seed), i);
+                rebuild_race_case(cx, r, i, &mut g);
+            }
+        }
         _ => r.fatal_inconclusive("replay: witness has no phase"),
     }
 }
